@@ -67,3 +67,22 @@ func VH_C17_TruncatedFetch(version, nb int) {
 	vhAssert(got == nil || rerr != nil, "no-partial-fetch-response")
 	vhReach("c17-truncated-fetch")
 }
+
+// The raw SASL exchange of a Transport connection (after a v0 handshake): the answer is a 4-byte length and a token
+// outside the normal framing. Cut after any byte: error, never a shortened token presented as the answer.
+func VH_C17_RawExchangeCut(L int) {
+	token := vhBytes("token", L)
+	frame := append([]byte{byte(L >> 24), byte(L >> 16), byte(L >> 8), byte(L)}, token...)
+	k := vhChoose("cut", len(frame))
+	fc := &vhFakeConn{data: frame[:k]}
+	if vhChoose("end_kind", 2) == 1 {
+		fc.endErr = vhNetErr{}
+	}
+	conn := NewConn(fc, "vh")
+	conn.SetVersions(map[ApiKey]int16{SaslHandshake: 0, SaslAuthenticate: 0})
+	req := apiTypes[SaslAuthenticate].requests[0].new()
+	msg, err := conn.RoundTrip(req)
+	vhAssert(err != nil, "cut-raw-sasl-answer-is-an-error")
+	vhAssert(msg == nil, "cut-raw-sasl-answer-yields-no-message")
+	vhReach("c17-raw-exchange-cut")
+}
